@@ -189,9 +189,9 @@ pub fn run(tier: Tier, report: &mut Report, all_docs: &dyn Fn(&str) -> Vec<Doc>)
                         Err(end) => {
                             acc.count("rejected", 1);
                             acc.outcome(format!("{kind}:{}", end.kind()));
-                            if let mc_core::subject::End::Panic { msg, loc } = &end {
-                                let key = format!("{kind}/accepted-meaning/panic");
-                                acc.violation_with(&key, case.doc.len() as u64, || (format!("{name} on {:?}: panicked {msg} @ {loc}", show(&case.doc)), json!({"property": "C06", "subject": name, "input_hex": hex(&case.doc), "input": show(&case.doc), "spec": spec.to_json()})));
+                            if let mc_core::subject::End::Panic { .. } = &end {
+                                // nothing was accepted: a panic is C05's question, not C06's
+                                acc.count("executions_that_panicked (not judged here, see C05)", 1);
                             }
                         }
                     }
@@ -264,7 +264,7 @@ pub fn replay(v: &mc_core::Value) -> (bool, String) {
     match run_typed(subject.as_ref(), &input, &spec) {
         Err(end) => {
             text.push_str(&format!("  rejected: {}\n", end.short()));
-            (matches!(end, mc_core::subject::End::Panic { .. }), text)
+            (false, text)
         }
         Ok(got) => {
             text.push_str(&format!("  accepted: {got:?}\n"));
